@@ -88,7 +88,10 @@ type lcSpec struct {
 }
 
 var lcKinds = []string{"close", "quit", "error", "eof", "erroreof", "werr", "badline", "qwf", "wfault"}
-var lcPlaces = []string{"reg", "after001", "burst", "slow", "txq"}
+var lcPlaces = []string{"reg", "after001", "burst", "slow", "txq", "stream", "flood"}
+var lcBasePlaces = []string{"reg", "after001", "burst", "slow", "txq"}
+var lcStreamKinds = []string{"close", "quit", "error", "erroreof", "badline"}
+var lcFloodKinds = []string{"close", "error", "eof", "erroreof", "badline"}
 var lcPreludes = []string{"capcont", "capls", "capack", "capnak", "sasl", "isupport", "names", "motd", "welcome", "all"}
 
 func lcParseSpec(s string) lcSpec {
@@ -118,6 +121,12 @@ func lcParseSpec(s string) lcSpec {
 	}
 	if strings.ContainsAny(sp.errtext, " \r\n\x00:") || sp.errtext == "" || len(sp.errtext) > 40 {
 		return lcSpec{}
+	}
+	if sp.place == "stream" && !lcIn(sp.kind, lcStreamKinds) {
+		return lcSpec{} // the peer keeps sending through the teardown: only where it stays
+	}
+	if sp.place == "flood" && !lcIn(sp.kind, lcFloodKinds) {
+		return lcSpec{} // kinds that do not themselves go through Send
 	}
 	if sp.place == "slow" && sp.k < 1 {
 		return lcSpec{} // the blocked handler is that of line k
@@ -280,7 +289,10 @@ type lcConn struct {
 	paused      atomic.Bool
 	resume      chan struct{}
 	peerShut    atomic.Bool // the peer closed its own end
-	panicked    atomic.Bool // Connect panicked: never call into the client again
+	panicked    atomic.Bool // Connect panicked or never returned: never call into the client again
+	wmu         sync.Mutex  // log entry + write of the peer are one step (several goroutines write)
+	streamDone  chan struct{}
+	sendDone    chan struct{}
 	failWrites  atomic.Bool // the client's writes fail from now on (pipe transport)
 	snapshot    string      // tracked state when the first registration line was on the wire
 	ln          net.Listener
@@ -355,6 +367,17 @@ func (cn *lcConn) handle(cl *girc.Client, e girc.Event) {
 		cn.lifecycle = append(cn.lifecycle, t)
 		cn.mu.Unlock()
 		cn.log.add(t)
+		if t == "K" && cn.sp.place == "stream" {
+			// all four loops have stopped, the socket is still open: the server is still
+			// talking. (Asynchronously: on a pipe the second line finds no reader.)
+			w := make(chan struct{})
+			go func() {
+				defer close(w)
+				cn.peerLines([]string{cn.id(90)})
+				cn.peerLines([]string{cn.id(91)})
+			}()
+			lcWaitCh(w, 20*time.Millisecond)
+		}
 		return
 	case girc.ERROR:
 		cn.log.add("e" + e.Last())
@@ -470,6 +493,8 @@ func (cn *lcConn) peerLines(items []string) {
 	if cn.panicked.Load() {
 		return
 	}
+	cn.wmu.Lock()
+	defer cn.wmu.Unlock()
 	var sb strings.Builder
 	for _, it := range items {
 		switch {
@@ -890,6 +915,57 @@ func (cn *lcConn) run(cur *atomic.Value) lcConnResult {
 		if !lcWaitCh(stim, 2*lcStepBound) {
 			cn.problem("harness-timeout: stimulus did not complete")
 		}
+	case "stream":
+		// the peer keeps streaming lines, one write each, through the stimulus and the
+		// teardown, until its writes fail (at most 15 lines behind the stimulus: see the
+		// 30 s timer of Client.receive)
+		wrote := make(chan struct{})
+		cn.streamDone = make(chan struct{})
+		go func() {
+			defer close(cn.streamDone)
+			for i := 1; i <= sp.k+15; i++ {
+				cn.peerLines([]string{cn.id(i)})
+				if i == sp.k {
+					close(wrote)
+				}
+				select {
+				case <-cn.retCh:
+					if i >= sp.k {
+						return
+					}
+				default:
+				}
+				time.Sleep(50 * time.Microsecond)
+			}
+		}()
+		if sp.k > 0 {
+			cn.waitStep(wrote)
+		}
+		cn.stimulus(nil, nil)
+	case "flood":
+		// an application goroutine sits in the flood delay of Client.Send when the connection
+		// ends (the session runs without AllowFlood; the limiter is primed so that the next
+		// Send waits about a second)
+		cn.peerLines([]string{"W" + cn.id(0)})
+		if !cn.waitDelivered(1) {
+			cn.problem("harness-timeout: 001 not delivered")
+		}
+		if !cn.panicked.Load() {
+			cn.c.VerifPNPrimeLimiter(9*time.Second, 0)
+			cn.sendDone = make(chan struct{})
+			go func() {
+				defer close(cn.sendDone)
+				cn.appSend(30)
+			}()
+			deadline := time.Now().Add(lcStepBound)
+			for time.Now().Before(deadline) {
+				if d, ok := cn.c.VerifPNWriteDelay(); !ok || d > 9*time.Second {
+					break // rate() has been consulted: the Send is waiting
+				}
+				time.Sleep(100 * time.Microsecond)
+			}
+		}
+		cn.stimulus(nil, nil)
 	case "txq":
 		if !cn.waitStep(cn.regDone) {
 			cn.problem("harness-timeout: registration incomplete")
@@ -917,14 +993,25 @@ func (cn *lcConn) run(cur *atomic.Value) lcConnResult {
 	case res.err = <-done:
 		res.returned = true
 	case <-time.After(lcReturnBound):
-		// not returned: free everything so that the process can go on
+		// not returned: free everything so that the process can go on. The client may be
+		// wedged on one of its locks: nothing may wait for a call into it any more.
+		cn.panicked.Store(true)
 		cn.resumeReader()
-		cn.c.Close()
+		go cn.c.Close()
+		cn.peerShut.Store(true)
 		cn.in.Close()
 		select {
 		case <-done:
-		case <-time.After(lcReturnBound):
+		case <-time.After(2 * time.Second):
 		}
+		lcAbandonGoroutines()
+		select {
+		case <-cn.release:
+		default:
+			close(cn.release)
+		}
+		res.class = "no-return"
+		return res
 	}
 	select {
 	case <-cn.release:
@@ -957,9 +1044,18 @@ func (cn *lcConn) run(cur *atomic.Value) lcConnResult {
 			res.eof = cn.sawEOF.Load() || cn.peerShut.Load() || cn.selfClosing.Load()
 		}
 	}
+	if cn.streamDone != nil {
+		lcWaitCh(cn.streamDone, lcStepBound) // its writes fail once the client's socket is closed
+	}
+	if cn.sendDone != nil && !lcWaitCh(cn.sendDone, lcStepBound) {
+		// Connect has returned but the Send that was waiting out its flood delay never does
+		cn.tcpProblems = append(cn.tcpProblems, fmt.Sprintf("send-stuck: a Send that was in its flood delay when the connection ended has not returned %v later", lcStepBound))
+		cn.panicked.Store(true)
+		lcAbandonGoroutines()
+	}
 	// library goroutines must be gone because the CLIENT closed its socket, not because the
 	// peer hangs up afterwards: look before the peer closes its end
-	if res.returned {
+	if res.returned && !cn.panicked.Load() {
 		res.leak, res.leakInfo = lcSettleGoroutines()
 	}
 	if sp.tcp && res.returned && res.eof && !cn.peerShut.Load() && !cn.selfClosing.Load() {
@@ -996,9 +1092,18 @@ func (cn *lcConn) run(cur *atomic.Value) lcConnResult {
 	return res
 }
 
-// lcGircGoroutines counts goroutines that run or were created by library code, except the
-// documented 2 s sleeper of handleConnect (a background handler still finishing).
-func lcGircGoroutines() (int, string) {
+// lcIgnored holds the ids of library goroutines a previous session of this process already
+// reported as leaked (or left behind by a Connect that never returned): they are that session's
+// finding, not the next one's.
+var lcIgnored = map[string]bool{}
+
+var lcGoroutineHead = regexp.MustCompile(`^goroutine (\d+) \[`)
+
+// lcGircGoroutines lists the goroutines that run or were created by library code (a frame of
+// package girc on their stack, e.g. parked in (*ircConn).decode or (*Client).readLoop), except
+// the documented 2 s sleeper of handleConnect (a background handler still finishing) and those
+// already attributed to an earlier session.
+func lcGircGoroutines() (ids []string, sample string) {
 	buf := make([]byte, 1<<20)
 	for {
 		n := runtime.Stack(buf, true)
@@ -1008,33 +1113,64 @@ func lcGircGoroutines() (int, string) {
 		}
 		buf = make([]byte, 2*len(buf))
 	}
-	count, sample := 0, ""
 	for _, g := range strings.Split(string(buf), "\n\n") {
 		if !strings.Contains(g, "github.com/lrstanley/girc.") || strings.Contains(g, "girc.handleConnect") {
 			continue
 		}
-		count++
+		m := lcGoroutineHead.FindStringSubmatch(g)
+		if m == nil || lcIgnored[m[1]] {
+			continue
+		}
+		ids = append(ids, m[1])
 		if sample == "" {
-			lines := strings.Split(g, "\n")
-			for _, l := range lines {
+			state := ""
+			if k := strings.IndexByte(g, '\n'); k > 0 {
+				state = strings.TrimSpace(g[:k])
+			}
+			for _, l := range strings.Split(g, "\n") {
 				if strings.Contains(l, "github.com/lrstanley/girc.") {
-					sample = strings.TrimSpace(l)
+					sample = strings.TrimSpace(l) + " <" + state + ">"
 					break
 				}
 			}
 		}
 	}
-	return count, sample
+	return ids, sample
 }
 
+// lcSettleGoroutines polls until no library goroutine is left; what is left after the bound
+// is reported once and ignored from then on.
+var lcLeakReports int
+
 func lcSettleGoroutines() (int, string) {
+	if lcLeakReports >= 8 {
+		// the verdict of this process is established; do not spend the grace period on every
+		// further session (a systematic leak would cost minutes)
+		lcAbandonGoroutines()
+		return 0, ""
+	}
 	deadline := time.Now().Add(lcSettleBound)
 	for {
-		n, s := lcGircGoroutines()
-		if n == 0 || time.Now().After(deadline) {
-			return n, s
+		ids, s := lcGircGoroutines()
+		if len(ids) == 0 {
+			return 0, ""
+		}
+		if time.Now().After(deadline) {
+			for _, id := range ids {
+				lcIgnored[id] = true
+			}
+			lcLeakReports++
+			return len(ids), s
 		}
 		time.Sleep(time.Millisecond)
+	}
+}
+
+// lcAbandonGoroutines attributes whatever library goroutines exist now to the current session.
+func lcAbandonGoroutines() {
+	ids, _ := lcGircGoroutines()
+	for _, id := range ids {
+		lcIgnored[id] = true
 	}
 }
 
@@ -1266,6 +1402,11 @@ func lcRunSession(specs []lcSpec) Result {
 	var cur atomic.Value
 	cfg := girc.Config{Server: "irc.test", Port: 6667, Nick: "me", User: "user", Name: "Real Name", AllowFlood: true,
 		SASL: &girc.SASLPlain{User: "acct", Pass: "secret"}}
+	for _, sp := range specs {
+		if sp.place == "flood" {
+			cfg.AllowFlood = false // the flood limiter is what the placement is about
+		}
+	}
 	var ln net.Listener
 	if len(specs) > 0 && specs[0].tcp {
 		var err error
@@ -1314,7 +1455,7 @@ func lcRunSession(specs []lcSpec) Result {
 		if first == nil {
 			first = cn
 		}
-		if !res.returned || res.class == "panic" {
+		if !res.returned || res.class == "panic" || cn.panicked.Load() {
 			break
 		}
 	}
@@ -1351,7 +1492,14 @@ func lcShowTrace(toks []string) string {
 }
 
 func lcGenSpec(r *rand.Rand, letter string) lcSpec {
-	sp := lcSpec{kind: lcKinds[r.Intn(len(lcKinds))], place: lcPlaces[r.Intn(len(lcPlaces))], ok: true}
+	place := lcBasePlaces[r.Intn(len(lcBasePlaces))]
+	switch x := r.Intn(25); {
+	case x == 0:
+		place = "flood" // costs a second of real time: rare
+	case x < 5:
+		place = "stream"
+	}
+	sp := lcSpec{kind: lcKinds[r.Intn(len(lcKinds))], place: place, ok: true}
 	sp.errtext = "E" + letter + strconv.Itoa(r.Intn(90)+10)
 	sp.resp = sp.kind == "quit" && r.Intn(2) == 0
 	if r.Intn(3) > 0 {
@@ -1371,7 +1519,14 @@ func lcGenSpec(r *rand.Rand, letter string) lcSpec {
 		sp.k = 1 + r.Intn(sp.n)
 	case "txq":
 		sp.m = 1 + r.Intn(8)
+	case "stream":
+		sp.kind = lcStreamKinds[r.Intn(len(lcStreamKinds))]
+		sp.k = r.Intn(10)
+		sp.n = sp.k
+	case "flood":
+		sp.kind = lcFloodKinds[r.Intn(len(lcFloodKinds))]
 	}
+	sp.resp = sp.kind == "quit" && sp.resp
 	return sp
 }
 
@@ -1379,7 +1534,7 @@ func lcFixedSessions() []Case {
 	var cs []Case
 	i := 0
 	for _, k := range lcKinds {
-		for _, p := range lcPlaces {
+		for _, p := range lcBasePlaces {
 			sp := lcSpec{kind: k, place: p, errtext: "Ea" + strconv.Itoa(10+i), pre: lcPreludes[i%len(lcPreludes)]}
 			switch p {
 			case "burst":
@@ -1391,7 +1546,7 @@ func lcFixedSessions() []Case {
 			}
 			// the second connection cycles through the kinds too
 			k2 := lcKinds[i%len(lcKinds)]
-			p2 := lcPlaces[(i/2)%len(lcPlaces)]
+			p2 := lcBasePlaces[(i/2)%len(lcBasePlaces)]
 			sp2 := lcSpec{kind: k2, place: p2, errtext: "Eb" + strconv.Itoa(10+i), n: 6, k: 3, m: 3}
 			if i%3 == 0 {
 				sp2.pre = lcPreludes[(i/3)%len(lcPreludes)]
@@ -1415,6 +1570,14 @@ func lcFixedSessions() []Case {
 		cs = append(cs, Case{k1 + "/after001/0/0/0/Ea" + strconv.Itoa(60+j) + "/-/" + pre,
 			"close/after001/0/0/0/Eb" + strconv.Itoa(60+j) + "/-/" + []string{"capls", "capack", "all"}[j%3]})
 	}
+	// the server is still sending while the connection is torn down
+	for j, k := range lcStreamKinds {
+		cs = append(cs, Case{k + "/stream/4/4/0/Ea" + strconv.Itoa(40+j), lcStreamKinds[(j+1)%3] + "/stream/0/0/0/Eb" + strconv.Itoa(40+j)})
+	}
+	// a Send of the application is waiting out its flood delay when the connection ends
+	for j, k := range lcFloodKinds {
+		cs = append(cs, Case{k + "/flood/0/0/0/Ea" + strconv.Itoa(50+j), "close/after001/0/0/0/Eb" + strconv.Itoa(50+j)})
+	}
 	// a server-like peer answering QUIT
 	cs = append(cs, Case{"quit/after001/0/0/0/Ea90/resp", "quit/burst/8/4/0/Eb90/resp"})
 	cs = append(cs, Case{"quit/slow/10/3/0/Ea91/resp", "close/reg/0/0/0/Eb91"})
@@ -1429,7 +1592,7 @@ func lcRunCase(c Case, tcp bool) Result {
 	var specs []lcSpec
 	for _, a := range c {
 		sp := lcParseSpec(a)
-		if sp.ok && tcp && (sp.place == "txq" || sp.kind == "qwf" || sp.kind == "wfault" || sp.kind == "werr") {
+		if sp.ok && tcp && (sp.place == "txq" || sp.place == "flood" || sp.kind == "qwf" || sp.kind == "wfault" || sp.kind == "werr") {
 			sp.ok = false // these need the synchronous, wrappable pipe
 		}
 		if !sp.ok {
@@ -1443,7 +1606,7 @@ func lcRunCase(c Case, tcp bool) Result {
 }
 
 var lcTCPKinds = []string{"close", "quit", "error", "eof", "erroreof", "badline"}
-var lcTCPPlaces = []string{"reg", "after001", "burst", "slow"}
+var lcTCPPlaces = []string{"reg", "after001", "burst", "slow", "stream"}
 
 func lcGenTCPSpec(r *rand.Rand, letter string) lcSpec {
 	for {
